@@ -268,6 +268,30 @@ class Program:
         cache[cls] = out
         return out
 
+    def memo_attrs(self, cls: str):
+        """private instance attributes that some method of the MRO sets to the constant None (`self._x = None`, `self._x: Optional[T] = None`):
+        the shape of a memo - `self._x is None` on such an attribute is a live hit/miss decision, not a constant"""
+        cache = self.__dict__.setdefault("_mattr", {})
+        if cls in cache:
+            return cache[cls]
+        out = set()
+        for c in self.mro(cls):
+            ci = self.classes.get(c)
+            if ci is None:
+                continue
+            for fi in ci.methods.values():
+                args = fi.node.args.args
+                if not args:
+                    continue
+                me = args[0].arg
+                for n in ast.walk(fi.node):
+                    if isinstance(n, (ast.Assign, ast.AnnAssign)) and isinstance(getattr(n, "value", None), ast.Constant) and n.value.value is None:
+                        for t in (n.targets if isinstance(n, ast.Assign) else [n.target]):
+                            if isinstance(t, ast.Attribute) and isinstance(t.value, ast.Name) and t.value.id == me and t.attr.startswith("_"):
+                                out.add(t.attr)
+        cache[cls] = out
+        return out
+
     def subclasses(self, cls: str) -> List[str]:
         return [c for c in self.classes if cls in self.mro(c)[1:]]
 
